@@ -11,6 +11,18 @@ from .minieval import MiniEval, Raised, Rec, Sym, Unknown, run_function
 from .model import AnalysisError, ClassInfo
 
 
+class IntEnumMember(int):
+    """a member of an IntEnum / IntFlag of the analysed code: an int, but not of type int"""
+
+    def __new__(cls, value, enum_name="", member=""):
+        obj = int.__new__(cls, value)
+        obj.enum_name, obj.member, obj.value, obj.name = enum_name, member, int(value), member
+        return obj
+
+    def __repr__(self):
+        return f"{self.enum_name}.{self.member}"
+
+
 class ObjWorld:
     def __init__(self, model, modules=(), real_classes=(), where="obj-world"):
         self.model = model
@@ -108,6 +120,16 @@ class ObjWorld:
                     return extra(e, me)
                 except Unknown:
                     pass
+            if isinstance(e, ast.Call) and u(e.func) == "Int" and len(e.args) == 1 and not e.keywords and self.model.try_class("Int") is not None:
+                v = me.ev(e.args[0])
+                if isinstance(v, int):
+                    # the Int constructor's own checks decide whether this Python value is accepted
+                    init = self.model.find_class("Int", "pyteal.ast.int").methods["__init__"]
+                    probe = Sym("int-under-construction")
+                    sub = MiniEval(lambda x, m: Sym("super", methods={"__init__": lambda: None}) if isinstance(x, ast.Call) and u(x) == "super()" else (_ for _ in ()).throw(Unknown()), "Int.__init__", permissive=True)
+                    sub.call_def(init.node, [probe, v], {}, {})
+                    MiniEval.serial += 1
+                    return Rec("call", Rec("name", f"Int#{MiniEval.serial}"), [probe.attrs.get("value", v)], {})
             if isinstance(e, ast.Name):
                 if e.id in self.consts:
                     return self.consts[e.id]
@@ -124,7 +146,7 @@ class ObjWorld:
                         for k, v in c.class_attrs.items():
                             ok, cv = try_const(self.model, c.module, v)
                             if ok:
-                                es.attrs[k] = cv if "Int" in "".join(c.base_exprs) else Sym(f"{e.id}.{k}", attrs={"value": cv, "name": k})
+                                es.attrs[k] = IntEnumMember(cv, e.id, k) if "Int" in "".join(c.base_exprs) and isinstance(cv, int) else Sym(f"{e.id}.{k}", attrs={"value": cv, "name": k})
                         self.class_syms[e.id] = es
                     return self.class_syms[e.id]
             raise Unknown()
